@@ -213,6 +213,9 @@ func checkC08(c *Ctx) {
 		return isRepoFunc(fn, "tree", "", "Compare") || isRepoFunc(fn, "tree", "", "CompareWeighted")
 	}, "optionally counting tip branches")
 	c.Floor("ARGSWAP", 1)
+	c.Decides("BREAK-IDENTICAL: every break that leaves a loop over branches in Compare / CompareWeighted (worker closures included) sits under the un-negated identical-only parameter")
+	c.breakIdentical("BREAK-IDENTICAL", []*FuncInfo{c.Func("tree", "", "Compare"), c.Func("tree", "", "CompareWeighted")}, "the common / reference-only / compared-only counts are exact")
+	c.Floor("BREAK-IDENTICAL", 4)
 	c.Decides("PREFILTER-SOUND: the linear search FindEdge skips a candidate before the bitset comparison only on tip-ness, hash code or bitsets (nothing that two branches defining the same split may disagree on); SIBLING-ARGS: the compare trees command hands Compare and CompareWeighted the same option variables for the parameters they share")
 	if c.prefilterSound("PREFILTER-SOUND", c.Func("tree", "Edge", "FindEdge"), "counts exactly the splits present in both / only in one") == 0 {
 		c.Undecided("PREFILTER-SOUND", "tree.Edge.FindEdge", token.NoPos, "no skipped candidate found in FindEdge (the tip-ness and hash code shortcuts were the instances confirmed by hand)")
